@@ -9,6 +9,7 @@ GEN = {
     "Units.v": "units",
     "FromDict.v": "fromdict",
     "Formulas.v": "chains",
+    "SimWrites.v": "simwrites",
 }
 
 
